@@ -49,6 +49,35 @@ def seq_eq(a, b):
     return len(a) == len(b) and all(feq(x, y) for x, y in zip(a, b))
 
 
+def grids_ok(pck, H, L, ndims, numfmt="repr"):
+    """The cell-centre coordinates the reader derives for every level and axis (`grids`) and the box centres (`box_centers`) are
+    those of the geometry the header states: grid point i of level l sits at geo_low + dx[l] * (i + 1/2)."""
+    grids = getattr(pck, "grids", None)
+    if grids is not None:
+        if len(grids) != L + 1:
+            return "grids of %d levels exposed, %d levels are open" % (len(grids), L + 1)
+        for l in range(L + 1):
+            for dd in range(ndims):
+                n = H["domains"][l][1][dd] - H["domains"][l][0][dd] + 1
+                lo, hi, dx = H["geo_lo"][dd], H["geo_hi"][dd], H["dx"][l][dd]
+                want = lo + dx * (np.arange(n) + 0.5)
+                got = np.asarray(grids[l][dd], dtype=float)
+                tol = 1e-9 * abs(dx) if numfmt == "repr" else 2e-5 * max(abs(lo), abs(hi), hi - lo)
+                if got.shape != want.shape or not np.all(np.abs(got - want) <= tol):
+                    k = int(np.argmax(np.abs(got - want))) if got.shape == want.shape else 0
+                    return "grids[%d][%d] has %d points, point %d at %r; the header's level-%d cell centres are %d points, that one at %r" % (
+                        l, dd, got.shape[0], k, float(got[k]) if got.size else None, l, n, float(want[k]))
+    bc = getattr(pck, "box_centers", None)
+    if bc is not None and hasattr(pck, "boxes"):
+        for l in range(min(len(bc), len(pck.boxes))):
+            for b, (c, box) in enumerate(zip(bc[l], pck.boxes[l])):
+                for dd in range(ndims):
+                    mid = 0.5 * (box[dd][0] + box[dd][1])
+                    if not abs(c[dd] - mid) <= 1e-9 * max(abs(box[dd][1] - box[dd][0]), 1e-300):
+                        return "box_centers[%d][%d][%d] = %r, the box spans %r" % (l, b, dd, c[dd], box[dd])
+    return None
+
+
 def run_scenario(chk, sc, cfgseed, ndims):
     from amr_kitchen import PlotfileCooker
     rng = random.Random(cfgseed)
@@ -113,6 +142,9 @@ def run_scenario(chk, sc, cfgseed, ndims):
         want = [b - a + 1 for a, b in zip(*H["domains"][l])]
         if list(pck.grid_sizes[l]) != want:
             return "grid_sizes[%d] = %r, header states %r" % (l, list(pck.grid_sizes[l]), want)
+    v = grids_ok(pck, H, L, ndims, cfg.numfmt)
+    if v:
+        return v
     # ---- boxes
     if len(pck.boxes) != exp["box_levels"]:
         return "exposes boxes of %d levels, expected %d" % (len(pck.boxes), exp["box_levels"])
